@@ -342,6 +342,8 @@ def join(a: AVal, b: AVal) -> AVal:
             idx_of=a.idx_of if a.idx_of == b.idx_of else None, size_of=a.size_of if a.size_of == b.size_of else None,
             gen=a.gen | b.gen, rng=a.rng or b.rng, layout=a.layout if a.layout == b.layout else (), note=a.note,
         )
+    if isinstance(a, ObjV) and isinstance(b, ObjV):
+        return join_objects(a, b)
     if isinstance(a, Const) and isinstance(b, TV):
         return join(const_to_tv(a), b)
     if isinstance(a, TV) and isinstance(b, Const):
@@ -405,6 +407,34 @@ def join(a: AVal, b: AVal) -> AVal:
 
         return SetV(items=None, elem=join(ea, eb) if ea is not None and eb is not None else (ea or eb), atoms=at(a) | at(b))
     return Unk(f"join of {type(a).__name__}/{type(b).__name__}")
+
+
+def join_objects(a: "ObjV", b: "ObjV", depth: int = 0) -> AVal:
+    """Summary of two distinct instances of one class (elements of a list built in a loop): a fresh object whose fields are
+    the joins. Its identity is derived from the oldest constituent so that fixpoint iteration stabilises. Sound for the
+    objects of this code base that are met in collections (transforms, tensor dictionaries): they are not mutated after
+    construction; a later field store on a summary is reported by the interpreter as `lost_mutation`."""
+    if a.oid == b.oid:
+        return a
+    if a.cls is not b.cls or depth > 6:
+        return Unk(f"join of distinct objects ({a.cls.name}/{b.cls.name})")
+    root = min(abs(a.oid), abs(b.oid))
+    o = ObjV(a.cls)
+    o.oid = -root
+    o.summary = True
+    for k in set(a.fields) | set(b.fields):
+        fa, fb = a.fields.get(k), b.fields.get(k)
+        if fa is None or fb is None:
+            o.fields[k] = fa if fb is None else fb
+        elif isinstance(fa, ObjV) and isinstance(fb, ObjV):
+            o.fields[k] = join_objects(fa, fb, depth + 1)
+        elif type(fa) is type(fb) and not isinstance(fa, (TV, Const, ListV, SetV, DictV, Unk)):
+            o.fields[k] = fa  # callables / classes / modules: same kind of value
+        else:
+            o.fields[k] = join(fa, fb)
+    if a.payload is not None or b.payload is not None:
+        o.payload = join(a.payload, b.payload)
+    return o
 
 
 def _join_dtype(a, b):
